@@ -103,6 +103,7 @@ func OpenBucket(urlStr string, bucketName string, mode OpenMode) (b *Bucket, err
 
 	query := u.Query()
 	inMemory := query.Get("mode") == "memory"
+	existed := false // was there a database file before this call?
 	if inMemory {
 		if mode == ReOpenExisting {
 			return nil, fs.ErrNotExist
@@ -129,6 +130,9 @@ func OpenBucket(urlStr string, bucketName string, mode OpenMode) (b *Bucket, err
 
 		query.Set("mode", ifelse(mode == ReOpenExisting, "rw", "rwc"))
 		u = u.JoinPath(kDBFilename)
+		if _, statErr := os.Stat(filepath.Join(dir, kDBFilename)); statErr == nil {
+			existed = true
+		}
 	}
 
 	// See https://github.com/mattn/go-sqlite3#connection-string
@@ -178,7 +182,14 @@ func OpenBucket(urlStr string, bucketName string, mode OpenMode) (b *Bucket, err
 	bucket.expManager = newExpirationManager(bucket.doExpiration)
 	defer func() {
 		if err != nil {
-			_ = bucket.CloseAndDelete(ctx)
+			if existed {
+				// A bucket that was there before this call must survive a failed attempt to open it:
+				// only release what this call opened.
+				bucket.expManager.stop()
+				_ = bucket.sqliteDB.Close()
+			} else {
+				_ = bucket.CloseAndDelete(ctx)
+			}
 		}
 	}()
 
